@@ -272,13 +272,17 @@ structure Cfg where
   /-- blockchain/statebackend `storeCasmHashMetadata` stores the compiled class hash a migration
   carries (as found: `Migrate` only sets the height and keeps the hash juno precomputed). -/
   migValFix : Bool := false
+  /-- core/deprecatedstate `removeDeclaredClasses` looks at a class hash that the declared sections
+  list twice only once (7460746; as found the second look-up fails and the head cannot be
+  reverted). Legacy backend only. -/
+  dupDeclFix : Bool := false
   deriving DecidableEq, Repr
 
-def Cfg.asFound : Cfg := ⟨false, false, false, false⟩
-def Cfg.repaired : Cfg := ⟨true, true, true, true⟩
-/-- the tree: b4efaf4 (`leafFix`) and 904a370 (`histOrderFix`) are applied, the system-contract probe
-change and the migration change are only proposed -/
-def Cfg.current : Cfg := ⟨true, false, true, false⟩
+def Cfg.asFound : Cfg := ⟨false, false, false, false, false⟩
+def Cfg.repaired : Cfg := ⟨true, true, true, true, true⟩
+/-- the tree: b4efaf4 (`leafFix`), 904a370 (`histOrderFix`) and 7460746 (`dupDeclFix`) are applied,
+the system-contract probe change and the migration change are only proposed -/
+def Cfg.current : Cfg := ⟨true, false, true, false, true⟩
 
 inductive Err
   | alreadyDeployed | notFound | notDeployed | classMissing | checkHeadState
@@ -624,12 +628,18 @@ def logsDelAll (h : Bucket HKey Hist) (b : Nat) (d : Diff) : Bucket HKey Hist :=
 def LState.purgeSystem (s : LState) : LState :=
   [1, 2].foldl (fun s a => if (bget s.classHash a).isSome && (lget s.trie a).isEmpty then s.purge a else s) s
 
-/-- `State.Revert` of block `b` whose diff was `d` -/
-def LState.revert (s : LState) (b : Nat) (d : Diff) : Except Err LState :=
+/-- the class hashes `removeDeclaredClasses` looks at, with 7460746: every hash once (`seen`) -/
+def dedupFirst : List CHash → List CHash → List CHash
+  | _, [] => []
+  | seen, c :: r => if c ∈ seen then dedupFirst seen r else c :: dedupFirst (c :: seen) r
+
+/-- `State.Revert` of block `b` whose diff was `d`. `dupFix` = 7460746: a class hash listed twice
+in the declared sections is looked at once. -/
+def LState.revert (dupFix : Bool) (s : LState) (b : Nat) (d : Diff) : Except Err LState :=
   -- `removeDeclaredClasses` reads and deletes class by class on the same transaction (the declared
-  -- lists are a slice + map keys: a class listed twice is missing the second time);
-  -- `removeDeployedContractClasses` then tolerates missing classes
-  match d.classHashes.foldlM (undeclareStepM b) s.classes with
+  -- lists are a slice + map keys: before 7460746 a class listed twice is missing the second
+  -- time); `removeDeployedContractClasses` then tolerates missing classes
+  match (if dupFix then dedupFirst [] d.classHashes else d.classHashes).foldlM (undeclareStepM b) s.classes with
   | .error e => .error e
   | .ok cl =>
   let s1 := { s with classes := undeclareFold cl b (d.deployed.map Prod.snd) }
@@ -779,11 +789,11 @@ def newBackend (cfg : Cfg) : Backend NState :=
   ⟨NState.empty, NState.update cfg, NState.revert cfg, NState.headRead, NState.histRead cfg, true, cfg.migValFix⟩
 
 /-- the legacy backend under a block store with / without the proposed migration change -/
-def legacyBackendOf (migFix : Bool) : Backend LState :=
-  ⟨LState.empty, LState.update, LState.revert, LState.headRead, LState.histRead, false, migFix⟩
+def legacyBackendOf (migFix : Bool) (dupFix : Bool := true) : Backend LState :=
+  ⟨LState.empty, LState.update, LState.revert dupFix, LState.headRead, LState.histRead, false, migFix⟩
 
-/-- the legacy backend of the tree -/
-def legacyBackend : Backend LState := legacyBackendOf false
+/-- the legacy backend of the tree (7460746 applied, the migration change only proposed) -/
+def legacyBackend : Backend LState := legacyBackendOf false true
 
 structure Node (σ : Type) where
   st : σ
